@@ -198,4 +198,18 @@ def lockInventory : List (String × String × String × Bool) :=
     ("NewExtractor", "wip", "init", false) ]
 
 
+/-- the reviewed inventory of mutex-guarded package-level state (font/cmap/predefined.go,
+font/mapping/mapping.go; the root package has none): (variable, mutex, function, access, lock
+state).  Compared on every run with the inventory re-extracted from the Go sources
+(harness/conc_a_pkg.go): `locked` = between Lock and Unlock of that mutex, `caller` = unexported
+function all of whose call sites hold it. -/
+def pkgInventory : List (String × String × String × String × String) :=
+  [ ("cmap.predefinedCache", "predefinedMu", "(*File).IsPredefined", "read", "locked"),
+    ("cmap.predefinedCache", "predefinedMu", "loadPredefinedLocked", "read", "caller"),
+    ("cmap.predefinedCache", "predefinedMu", "loadPredefinedLocked", "write", "caller"),
+    ("mapping.cache", "resourceMutex", "GetCIDTextMapping", "read", "locked"),
+    ("mapping.cache", "resourceMutex", "GetCIDTextMapping", "write", "locked"),
+    ("mapping.reverseCache", "resourceMutex", "GetTextToCIDMapping", "read", "locked"),
+    ("mapping.reverseCache", "resourceMutex", "GetTextToCIDMapping", "write", "locked") ]
+
 end PdfVerif.CONC
